@@ -122,8 +122,9 @@ package cedar
 //@   assert after "slices.Sort(ids)" complete: forall id PolicyID :: inIDs(ids, id) == has(p.policies, id)
 
 // UnmarshalJSON replaces the contents by the decoded document (nothing of the old contents survives).
+// Every decoded entry is compiled: a null entry must be refused before (C10).
 //@ func (PolicySet) UnmarshalJSON
-//@   props C20
+//@   props C20 C10
 //@   loop 1
 //@     invariant !isnil(p.policies) && forall id PolicyID :: has(p.policies, id) == $done[id]
 //@   assert before "return nil" replaced: forall id PolicyID :: has(p.policies, id) == has(jsonPolicySet.StaticPolicies, id)
@@ -133,4 +134,3 @@ package cedar
 //@ frameclean C19 Authorize (PolicySet)IsAuthorized (PolicySet)Get (PolicySet)Map (PolicySet)All (PolicySet)MarshalCedar (PolicySet)MarshalJSON
 //@ frameclean C19 (Policy)MarshalCedar (Policy)MarshalJSON (Policy)Annotations (Policy)Effect (Policy)Position (Policy)AST (PolicyList)MarshalCedar
 //@ noleak C19 (PolicySet)Map (Policy)Annotations
-
